@@ -91,12 +91,35 @@ class Scenario:
         self.subs0 = ["storage"] if rng.random() < 0.5 else ["storage", "stub_client"]
         for svc in self.subs0:
             self._subscribe(svc)
+        # in every other scenario the node's real StorageFarmBroker listens as well (use_introducer): what it does with the
+        # announcements it is handed (it keeps them, compares old and new ones) must not disturb the client's rule
+        self.broker = None
+        if rng.random() < 0.5:
+            self.attach_broker()
         self.deliveries = []
         self.sent = []          # genuine tuples sent so far (for replays): (abstract item, tuple)
         self.hi = {}            # (svc, key) -> highest integer seqnum used so far by the generator
         self.first_kind = {}    # (svc, key) -> seq kind of the first verifying item sent while svc was subscribed
         self.events = []
         self.nevents = nevents
+
+    def attach_broker(self):
+        from twisted.application import service
+        from allmydata.storage_client import StorageFarmBroker, StorageClientConfig
+        from allmydata.node import config_from_string
+        from allmydata import client as client_mod
+
+        class BrokerTub(service.MultiService):
+            def connectTo(self, *a, **kw):
+                class R:
+                    def stopConnecting(self_):
+                        pass
+                return R()
+
+        config = config_from_string(self.dir, "client.port", "[node]\nnickname = x\n[client]\n", _valid_config=client_mod._valid_config())
+        self.broker = StorageFarmBroker(True, lambda h=None: BrokerTub(), config, StorageClientConfig())
+        self.broker.use_introducer(self.client)
+        self.broker_errors = []
 
     def _subscribe(self, svc):
         def cb(key_s, ann, svc=svc):
@@ -273,6 +296,8 @@ class Scenario:
                 self.deliveries = []
                 for svc in subs:
                     self._subscribe(svc)
+                if self.broker is not None:
+                    self.attach_broker()
                 self.client._load_announcements()
                 self.restarted = True
                 self.events.append({"ev": "Restart", "out": [{k: v for k, v in d.items() if k != "cb"} for d in self.deliveries],
